@@ -46,6 +46,7 @@ def run(report, db, tier):
     disconnect(report, db, cg, M, P, fi, arms)
     if not report.violations:
         report.floor('play write sites checked', n, 3)
+    no_drop(report, db, cg, M)
     Rc = report.rule('R11.5', 'set-compression in play (protocol 47) sets '
                      'threshold and flag')
 
@@ -398,3 +399,62 @@ def disconnect(report, db, cg, M, P, fi, arms):
         report.violation(R, 'exit:calls', hx.path, hx.node, hx.qualname,
                          'expected one invocation of handle_exit, found %d'
                          % len(calls))
+
+
+def no_drop(report, db, cg, M):
+    R = report.rule('R11.6', 'every packet read from the stream is handed '
+                    'to _react before the thread reads again or leaves the '
+                    'loop (no packet is consumed and dropped)')
+    rn = M.method(M.thread, '_run')
+    react = M.conn_method('_react')
+    g = cfg_of(rn)
+    live = g.reachable_nodes()
+    reads = [n for n in live if isinstance(n.ast, ast.Assign) and any(
+        any(m.name == 'read_packet' for m, _, _ in cg.callee_funcs(rn, c))
+        for c in n.calls())]
+    if len(reads) != 1 or not isinstance(reads[0].ast.targets[0], ast.Name):
+        raise AnalysisError('_run: `packet = ...read_packet(...)` not found',
+                            rn.node, rel(rn.path))
+    rd = reads[0]
+    pv = rd.ast.targets[0].id
+    disp = [n for n in live if n.ast is not None and any(
+        any(m is react for m, _, _ in cg.callee_funcs(rn, c))
+        and [ast.unparse(a) for a in c.args] == [pv] for c in n.calls())]
+    if not disp:
+        report.violation(R, 'drop:no-dispatch', rn.path, rd.ast, rn.qualname,
+                         'the packet read is never handed to _react')
+        return
+    env = {pv: True}
+    seen = set()
+    stack = [s for s, l in rd.succ if l != 'exc']
+    lost = None
+    while stack:
+        n = stack.pop()
+        if n in seen or n in disp:
+            continue
+        seen.add(n)
+        if n is rd or n is g.exit or n is g.raise_exit:
+            lost = n
+            break
+        decided = None
+        if n.kind == 'test':
+            ats = boolfn.atoms(n.ast)
+            if ats and all(a in env for a in ats):
+                decided = boolfn.evaluate(n.ast, env)
+        for s, l in n.succ:
+            if l == 'exc':
+                continue
+            if decided is not None and l in ('true', 'false') and \
+                    (l == 'true') != decided:
+                continue
+            stack.append(s)
+    if lost is None:
+        report.ok(R, 'from `%s = read_packet(...)` every path with a packet '
+                  'reaches _react(%s) first' % (pv, pv))
+    else:
+        report.violation(R, 'drop:path', rn.path, rd.ast, rn.qualname,
+                         'a packet that was read (and so consumed from the '
+                         'stream) can be discarded: there is a path from the '
+                         'read to %s that does not pass _react(%s)'
+                         % ('the next read' if lost is rd
+                            else 'the end of _run', pv))
